@@ -1,0 +1,15 @@
+//go:build verif
+
+package p2p
+
+import (
+	"hash"
+	"io"
+)
+
+// NewFrameRWVerif exposes the RLPx frame reader/writer (newRLPXFrameRW) for the verification harness:
+// read-only access, no behaviour of the package changes. aes/mac are the session keys, egress/ingress the
+// running MAC states a completed handshake would have produced.
+func NewFrameRWVerif(conn io.ReadWriter, aes, mac []byte, egress, ingress hash.Hash) MsgReadWriter {
+	return newRLPXFrameRW(conn, secrets{AES: aes, MAC: mac, EgressMAC: egress, IngressMAC: ingress})
+}
